@@ -2,6 +2,8 @@
 package c19
 
 import (
+	"sort"
+	"unicode/utf8"
 	"encoding/json"
 	"errors"
 	"flag"
@@ -20,7 +22,7 @@ import (
 )
 
 // ruleMore describes what was added to the exploration in the build phase.
-const ruleMore = "; token pool covers every UTF-8 length class with the first and last lead byte of each; single lexemes of up to 4080 bytes"
+const ruleMore = "; token pool covers every UTF-8 length class with the first and last lead byte of each; single lexemes of up to 4080 bytes; inputs derived from the automaton: a shortest text into every state (alone and followed by a stray character) and both end points of every character range of every transition; classes with hundreds and thousands of symbols (\\p{Greek}, a 20992 character range); NUL characters"
 
 func TestMain(m *testing.M) {
 	rec.Init("C19")
@@ -62,6 +64,11 @@ var otherTokens = []tokDef{
 	// every length class and the first and last lead byte of each: C2/DF (two bytes), E0/ED/EE/EF (three), F0/F4 (four)
 	{"CYR = /[\\x0430-\\x044F]+/", "CYR", []string{"да", "привет", "я"}},
 	{"HEB = /[\\x05D0-\\x05EA]+/", "HEB", []string{"שלום", "א"}},
+	// a state that is not accepting and has the highest number (the text after the dot), large symbol classes
+	{"PATH = /[A-Z]+(\\.[A-Z]+)*/", "PATH", []string{"A", "AB.C", "X.Y.Z"}},
+	{"CSV = /%[0-9]+(,[0-9]+)*/", "CSV", []string{"%1", "%1,22", "%0,0,0"}},
+	{"GREEK = /\\p{Greek}+/", "GREEK", []string{"αβγ", "\u0370\u03ff", "ἀ\u1ffe", "ϿͰ"}},
+	{"HAN = /[\\x4E00-\\x9FFF]+/", "HAN", []string{"漢字", "\u4e00\u9fff", "\u9fff"}},
 	{"EDGE = /[\\x0080\\x07FF\\x0800\\xD7FF\\xE000\\xFFEE\\x00010000\\x0010FFFF]+/", "EDGE", []string{"\u0080", "\u07ff", "\u0800", "\ud7ff", "\ue000", "\uffee", "\U00010000", "\U0010FFFF", "\u07ff\u0800\U0010FFFF\u0080"}},
 }
 
@@ -145,6 +152,62 @@ func prepare(g specGen) (*prepared, bool, error) {
 		return nil, false, nil // a token that matches the empty string: no sensible token stream exists
 	}
 	return p, true, nil
+}
+
+// coverInputs derives inputs from the automaton itself: for every state a shortest text that reaches it (alone, and
+// followed by a character no token continues with), and for every transition the first and the last character of
+// each run of consecutive characters that lead to the same state. They make the lexer stop in every state and
+// step over both ends of every character range.
+func coverInputs(p *prepared) []string {
+	var syms []rune
+	for _, a := range p.dfa.Symbols() {
+		if r := rune(a); r > 0 && utf8.ValidRune(r) {
+			syms = append(syms, r)
+		}
+	}
+	sort.Slice(syms, func(i, j int) bool { return syms[i] < syms[j] })
+	path := map[auto.State]string{p.dfa.Start: ""}
+	order := []auto.State{p.dfa.Start}
+	seen := map[string]bool{}
+	var out []string
+	add := func(x string) {
+		if x != "" && !seen[x] && len(out) < 400 {
+			seen[x] = true
+			out = append(out, x)
+		}
+	}
+	for i := 0; i < len(order); i++ {
+		s := order[i]
+		add(path[s])
+		add(path[s] + "\x01")
+		add(path[s] + " " + path[s])
+		var lo, prev rune
+		to := auto.State(-1)
+		flush := func() {
+			if to >= 0 {
+				add(path[s] + string(lo))
+				add(path[s] + string(prev))
+				add(path[s] + string(prev) + string(lo))
+			}
+		}
+		for _, r := range syms {
+			nx := p.dfa.Next(s, auto.Symbol(r))
+			if nx >= 0 {
+				if _, ok := path[nx]; !ok {
+					path[nx] = path[s] + string(r)
+					order = append(order, nx)
+				}
+			}
+			if to >= 0 && nx == to && r == prev+1 {
+				prev = r
+				continue
+			}
+			flush()
+			lo, prev, to = r, r, nx
+		}
+		flush()
+	}
+	return out
 }
 
 type expTok struct {
@@ -427,7 +490,7 @@ func runBatch(ps []*prepared, cases []caseT) (failed *caseT, err error) {
 
 func TestBatches(t *testing.T) {
 	rec.Rule(rule + ruleMore)
-	rec.Assume("token definitions that match the empty string are not generated (no token stream is defined for them); a lexeme (token, skipped token or comment) is shorter than one buffer half (4096 bytes), the documented limit of the two-buffer scheme; the NUL byte is the reader's sentinel and is not generated")
+	rec.Assume("token definitions that match the empty string are not generated (no token stream is defined for them); a lexeme (token, skipped token or comment) is shorter than one buffer half (4096 bytes), the documented limit of the two-buffer scheme")
 	rec.Check(t, 3, 96, func(t *rapid.T) {
 		var ps []*prepared
 		for len(ps) < 8 {
@@ -443,6 +506,15 @@ func TestBatches(t *testing.T) {
 		}
 		var cases []caseT
 		for _, p := range ps {
+			cover := coverInputs(p)
+			if len(cover) > 60 {
+				cover = rapid.Permutation(cover).Draw(t, "cover")[:60]
+			}
+			for _, text := range cover {
+				nt, cls := classify(p, text)
+				rec.Case(p.src+"\x00"+text, nt, append(cls, "state_and_range_cover")...)
+				cases = append(cases, caseT{p, text, 0})
+			}
 			for k := 0; k < 14; k++ {
 				text := genInput(t, p)
 				chunk := rapid.SampledFrom([]int{0, 0, 0, 1, 7, 4096, 5000}).Draw(t, "chunk")
